@@ -299,6 +299,26 @@ CHECKS = {
         "only; quick: a sixth of 33k cases + 9 pairs; thorough: all + 90."),
   technique="TLC exact rational oracle on a lattice LUT + TLC-checked laws on recorded paired calls",
  ),
+ "C07": dict(
+  level="model_checking",
+  design_ref="DESIGN.md section 5, C07",
+  text=("BasinSpec models files derived from an origin by selections "
+        "(increasing for filtered exports and exported hierarchy children, "
+        "arbitrary - permutation, repetition, superset - for explicitly "
+        "mapped basins) and states that every file shows, for every "
+        "feature, the composed origin events (TLC checks the composition "
+        "invariant and enumerates the chains). Each chain is built with "
+        "real files (export.hdf5(basins=True), children, "
+        "RTDCWriter.store_basin), every file is opened and every feature "
+        "(scalar, image, mask, contour, trace) decoded to origin tokens, "
+        "with int/negative/slice/boolean/index-array access, precedence of "
+        "a feature stored in the file itself, and a move of the whole "
+        "directory."),
+  note=("remote basin formats (http/s3/dcor) are not exercised here (C14 "
+        "covers the http permission rule); quick: a quarter of the 5.2k "
+        "chains of depth 2, thorough: depth 3 sampled."),
+  technique="TLC-enumerated derivation chains replayed on real basin files",
+ ),
 }
 
 NOT_YET = "check not built yet (work in progress; see DESIGN.md section 5)"
